@@ -214,7 +214,17 @@ const (
 	itPI
 	itStart
 	itEnd
+	itTag
 )
+
+// c11Gattr: a general piece inside a tag (Coq gattr): vk 0 = name only, 1 = name=unquoted, 2 = name=quoted
+type c11Gattr struct {
+	lead, name string
+	vk         int
+	w1, w2     string
+	q          byte
+	val        string
+}
 
 type xitem struct {
 	kind   int
@@ -223,6 +233,10 @@ type xitem struct {
 	attrs  []xattr
 	ws     string
 	void   bool
+	// itTag only: the general tag opener (Coq ITag)
+	pi      bool
+	gpieces []c11Gattr
+	closer  int // 6 '>', 7 '/>', 8 '?>'  (xml.TokenType of the closer)
 }
 
 type xdoc struct {
@@ -677,6 +691,32 @@ func buildDoc(items []xitem) *xdoc {
 			d.src = append(d.src, s...)
 			tok(xtok{tt: xml.EndTagToken, data: s, text: it.s, attrNil: true})
 			d.feat("element")
+		case itTag:
+			s, tt := "<"+it.s, xml.StartTagToken
+			if it.pi {
+				s, tt = "<?"+it.s, xml.StartTagPIToken
+			}
+			d.src = append(d.src, s...)
+			tok(xtok{tt: tt, data: s, text: it.s, attrNil: true})
+			for _, g := range it.gpieces {
+				switch g.vk {
+				case 0:
+					d.src = append(d.src, g.lead+g.name...)
+					tok(xtok{tt: xml.AttributeToken, data: g.lead + g.name, text: g.name, attrNil: true})
+				case 1:
+					raw := g.lead + g.name + g.w1 + "=" + g.w2 + g.val
+					d.src = append(d.src, raw...)
+					tok(xtok{tt: xml.AttributeToken, data: raw, text: g.name, attr: g.val})
+				default:
+					q := string(g.q)
+					d.src = append(d.src, g.lead+g.name+g.w1+"="+g.w2+q+g.val+q...)
+					tok(xtok{tt: xml.AttributeToken, data: g.lead + g.name + g.w1 + "=" + g.w2 + q + normWS(g.val) + q, text: g.name, attr: q + normWS(g.val) + q})
+				}
+			}
+			cl := map[int]string{6: ">", 7: "/>", 8: "?>"}[it.closer]
+			d.src = append(d.src, it.ws+cl...)
+			tok(xtok{tt: xml.TokenType(it.closer), data: cl, textNil: true, attrNil: true})
+			d.feat("general-tag")
 		}
 	}
 	d.hasCR = bytes.IndexByte(d.src, '\r') >= 0
@@ -1318,7 +1358,7 @@ func c11WellFormedOracle(r *Rng, tier string, rep *Report) {
 
 func init() {
 	props["C11"] = &PropSpec{
-		Models: []*Model{xmlModel, xmlspecModel},
+		Models: []*Model{xmlModel, xmlspecModel, c11XmlrefModel},
 		Oracles: []*Oracle{
 			{Name: "c11-structure", Run: c11StructOracle},
 			{Name: "c11-wellformed-vs-encoding-xml", Run: c11WellFormedOracle},
